@@ -1,7 +1,7 @@
 #!/bin/bash
 # usage: tools/install_round2.sh C02 C06 ...  — confirm and install the round-2 sub-agent mutants found under /tmp/mut2/<Cxx>/m3, m4
 for p in "$@"; do for m in m3 m4; do
-  d=/tmp/mut2/$p/$m
+  d=${MUTBASE:-/tmp/mut2}/$p/$m
   [ -f $d/patch.diff ] || { echo "$p $m: missing"; continue; }
   [ -d /verif/seeded/$p-$m ] && { echo "$p-$m already installed"; continue; }
   pkg=$(head -1 $d/notes.md | sed -n 's/^pkg: *//p'); [ -n "$pkg" ] || pkg=.
